@@ -121,3 +121,10 @@ pub(crate) fn digest_words<I: Iterator<Item = u64>>(words: I) -> u64 {
 pub(crate) fn bits<T: RealNumber>(v: T) -> u64 {
     v.to_f64().unwrap_or(f64::NAN).to_bits()
 }
+
+/// The crate-private index sort that every tree fit runs once per feature column, for any `Float`
+/// element type, so that it can be driven with an instrumented (adversarial) comparator.
+pub fn quick_argsort_mut<T: num_traits::Float>(v: &mut Vec<T>) -> Vec<usize> {
+    use crate::algorithm::sort::quick_sort::QuickArgSort;
+    v.quick_argsort_mut()
+}
